@@ -177,7 +177,8 @@ class Ctx:
         self.tier = tier
         self.seed = seed
         self.rng = random.Random((seed * 1000003) ^ int(hashlib.sha1(self.prop.encode()).hexdigest()[:8], 16))
-        self.work = os.path.join(VERIF, ".work", self.prop)
+        # VERIF_WORK relocates the scratch directory (regression runs of several patched trees in parallel)
+        self.work = os.path.join(os.environ["VERIF_WORK"], self.prop) if os.environ.get("VERIF_WORK") else os.path.join(VERIF, ".work", self.prop)
         shutil.rmtree(self.work, ignore_errors=True)
         os.makedirs(self.work, exist_ok=True)
         self.t0 = time.time()
@@ -702,6 +703,14 @@ def _parse_axioms(text):
 # --------------------------------------------------------------------------
 # known findings, reporting, evidence
 # --------------------------------------------------------------------------
+def EVIDENCE_DIR():
+    """/verif/evidence, unless VERIF_NO_EVIDENCE=1 (regression runs against patched trees must not overwrite the
+    evidence of the real tree): then the evidence of the run goes next to its scratch files."""
+    if os.environ.get("VERIF_NO_EVIDENCE") and os.environ.get("VERIF_WORK"):
+        return os.path.join(os.environ["VERIF_WORK"], "evidence")
+    return os.path.join(VERIF, "evidence")
+
+
 def known_findings(prop):
     path = os.path.join(VERIF, "KNOWN_FINDINGS.json")
     if not os.path.exists(path):
@@ -741,8 +750,8 @@ def write_evidence(ctx, violations):
         "wall_s": round(time.time() - ctx.t0, 2),
         "violations": violations,
     }
-    os.makedirs(os.path.join(VERIF, "evidence"), exist_ok=True)
-    with open(os.path.join(VERIF, "evidence", "%s.json" % ctx.prop), "w") as f:
+    os.makedirs(EVIDENCE_DIR(), exist_ok=True)
+    with open(os.path.join(EVIDENCE_DIR(), "%s.json" % ctx.prop), "w") as f:
         json.dump(ev, f, indent=1, default=str)
 
 
@@ -750,7 +759,7 @@ def report(ctx):
     """Apply the VIOLATION / KNOWN-FINDING protocol; returns the exit code."""
     known = [k for k in known_findings(ctx.prop) if k.get("status") == "open"]
     violations = 0
-    rdir = os.path.join(VERIF, "evidence", "replays")
+    rdir = os.path.join(EVIDENCE_DIR(), "replays")
     os.makedirs(rdir, exist_ok=True)
     lines = []
     unlisted = []
